@@ -30,9 +30,9 @@ PY
 cp -r $d/demo/. $wt/
 pkgs=$(cd $d/demo && find . -name '*_test.go' | xargs -n1 dirname | sort -u)
 tests=$(cd $d/demo && find . -name '*_test.go' | xargs grep -ho '^func Test[A-Za-z0-9_]*' | sed 's/func //' | paste -sd'|')
-with=pass; go test -mod=mod -vet=off -count=1 -timeout 10m -run "^($tests)\$" $pkgs > /tmp/vseed-$name.with 2>&1 || with=fail
+with=pass; go test -mod=mod -vet=off -count=1 -timeout 10m $DEMO_TAGS -run "^($tests)\$" $pkgs > /tmp/vseed-$name.with 2>&1 || with=fail
 git apply -R $d/patch.diff
-without=pass; go test -mod=mod -vet=off -count=1 -timeout 10m -run "^($tests)\$" $pkgs > /tmp/vseed-$name.without 2>&1 || without=fail
+without=pass; go test -mod=mod -vet=off -count=1 -timeout 10m $DEMO_TAGS -run "^($tests)\$" $pkgs > /tmp/vseed-$name.without 2>&1 || without=fail
 printf '{"build":"%s","baseline_suite_with_change":"%s","demo_with_change":"%s","demo_without_change":"%s","demo_tests":"%s"}\n' "$build" "$suite" "$with" "$without" "$tests" > $d/verify.json
 cat $d/verify.json
 cd /; git -C /repo worktree remove --force $wt; rm -f /tmp/vseed-$name.json /tmp/vseed-$name.build
